@@ -73,7 +73,12 @@ fn split_string(str: String) -> Vec<LogArgument> {
     let sub_len = 230;
     let mut cur = str;
     while !cur.is_empty() {
-        let (chunk, rest) = cur.split_at(std::cmp::min(sub_len, cur.len()));
+        // Never split inside a multi-byte character.
+        let mut end = std::cmp::min(sub_len, cur.len());
+        while !cur.is_char_boundary(end) {
+            end -= 1;
+        }
+        let (chunk, rest) = cur.split_at(end);
         v.push(LogArgument::LogStr(chunk.to_string()));
         cur = rest.to_string();
     }
